@@ -374,9 +374,7 @@ class DimSim(Engine):
         for k, r in enumerate(st.sets):
             if r is real:
                 st.models[k] = list(exp)
-        for a in st.arrays:
-            if a["src"] is real:
-                a["exempt"] = True
+        # arrays built from this set earlier keep their own dimension set: they stay under watch
         self._post(st, real, "independent-result")
         got = self._sigs_of(real)
         if got != [st.SIG[i] for i in exp]:
@@ -525,9 +523,6 @@ class DimSim(Engine):
             for k, r in enumerate(st.sets):  # the same object may sit in two slots
                 if r is real:
                     st.models[k] = list(exp)
-            for a in st.arrays:
-                if a["src"] is real:
-                    a["exempt"] = True
             self._expect(st, real, exp, "mutator-result", what)
             self._post(st, real, "independent-result")
             st.sig.append(("mut", op["f"], True, "ok", len(exp)))
